@@ -106,7 +106,7 @@ def refresh_race(ctx):
 def redirect_order(ctx):
     """C04: window W_RedirectToFreshNode on the real code (pipelines redirected to a node the proxy has no connection to)."""
     rfile = os.path.join(ctx.work, "redirorder.ndjson")
-    ctx.harness(["cluster-redirorder", "-out", rfile, "-runs", "6" if ctx.thorough else "2", "-cmds", "48" if ctx.thorough else "40"],
+    ctx.harness(["cluster-redirorder", "-out", rfile, "-runs", "6" if ctx.thorough else "2", "-cmds", "300" if ctx.thorough else "240"],
                 timeout=900, name="cluster")
     reached = {}
     for r in kit.read_ndjson(rfile):
@@ -143,6 +143,52 @@ def redirect_order(ctx):
     if missing and not ctx.violations:
         raise kit.Inconclusive("redirect-to-fresh-node window not reached for: %s" % missing)
     ctx.cov["redirect_to_fresh_node"] = reached
+
+
+def failover_strata(ctx):
+    """C04: failover strata DeathKinds x PromotedFlags on the real code (cluster-failflags)."""
+    rfile = os.path.join(ctx.work, "failflags.ndjson")
+    ctx.harness(["cluster-failflags", "-out", rfile, "-runs", "3" if ctx.thorough else "1"], timeout=1500, name="cluster")
+    done = set()
+    for r in kit.read_ndjson(rfile):
+        stratum = "%s/%s" % (r.get("death"), r.get("flags"))
+        if r.get("err"):
+            ctx.notes.append("failflags %s: %s" % (stratum, r["err"]))
+            continue
+        expect = "refused" if r["death"] == "refused" else "timeout"
+        if expect not in r.get("dialErr", ""):
+            ctx.notes.append("failflags %s: the old master's address answers %r, not %s" % (stratum, r.get("dialErr"), expect))
+            continue
+        done.add(stratum)
+        ctx.case(key=["failflags", stratum, r["run"]], nontrivial=True, n=r["attempts"])
+        where = "failover/%s/%s" % (r["death"], r["flags"])
+        what = ("old master gone (%s), promoted replica reported as %r: " % (r["dialErr"], r.get("nodesLine")))
+        bad = False
+        if r["leaked"]:
+            bad = True
+            ctx.violation("redirect-leak/" + where, what + "a MOVED/ASK reached the client: %s" % r["replies"], r)
+        if r["wrongValue"]:
+            bad = True
+            ctx.violation("reply-differs/" + where, what + "a read returned a wrong value: %s" % r["replies"], r)
+        if r["healedMs"] < 0:
+            bad = True
+            if r.get("confirmed"):
+                ctx.violation("no-convergence/" + where,
+                              what + "the promoted node is reachable and every node names it as the owner, but %d reads over 6 s all failed "
+                              "(twice): %s" % (r["attempts"], r["replies"][-1:]), r)
+        elif not r["writeOK"]:
+            bad = True
+            ctx.violation("write-after-failover/" + where, what + "a write after the failover was not served by the new master", r)
+        elif r["errorsAfter"]:
+            bad = True
+            ctx.violation("errors-remain/" + where, what + "%d of 6 reads failed after the first correct reply" % r["errorsAfter"], r)
+        if not bad:
+            ctx.cov["traces_validated_against_impl"] += 1
+    need = {"%s/%s" % (d, f) for d in ("refused", "blackholed") for f in ("master", "master,nofailover", "myself,master", "master+pfail")}
+    missing = sorted(need - done)
+    if missing and not ctx.violations:
+        raise kit.Inconclusive("failover strata not exercised: %s" % missing)
+    ctx.cov["failover_strata"] = sorted(done)
 
 
 def redirect_chain(ctx):
@@ -190,11 +236,25 @@ def gen_and_replay(ctx, gencfg, num, stable, label, extra=()):
     bfile = os.path.join(ctx.work, "behaviours-%s.ndjson" % label)
     kit.write_ndjson(bfile, behs)
     rfile = os.path.join(ctx.work, "replay-%s.ndjson" % label)
-    args = ["cluster-replay", "-in", bfile, "-out", rfile] + list(extra)
-    if stable:
-        args.append("-stable")
-    ctx.harness(args, timeout=3000, name="cluster")
-    results = kit.read_ndjson(rfile)
+    # every behaviour starts a processor of its own in the driver process, whose footprint grows by some MB per behaviour
+    # (4 GB for 250): replay in chunks, one driver process per chunk, so that a loaded machine does not kill the driver
+    results = []
+    chunk = 50
+    for lo in range(0, len(behs), chunk):
+        cin = os.path.join(ctx.work, "behaviours-%s-%d.ndjson" % (label, lo))
+        cout = os.path.join(ctx.work, "replay-%s-%d.ndjson" % (label, lo))
+        kit.write_ndjson(cin, behs[lo:lo + chunk])
+        args = ["cluster-replay", "-in", cin, "-out", cout] + list(extra)
+        if stable:
+            args.append("-stable")
+        ctx.harness(args, timeout=3000, name="cluster", env={"VERIF_SEED": str(ctx.seed + lo * 7919)})
+        part = kit.read_ndjson(cout)
+        for r in part:
+            r["id"] = r.get("id", 0) + lo
+        results += part
+        if len(part) != len(behs[lo:lo + chunk]):
+            raise kit.Inconclusive("replay %s: %d results for %d behaviours" % (label, len(part), len(behs[lo:lo + chunk])))
+    kit.write_ndjson(rfile, results)
     good = 0
     for res, beh in zip(results, behs):
         if res.get("err"):
